@@ -8,14 +8,15 @@ import numpy as np
 import common as C
 
 PID = "C12"
-LEAN_TARGETS = ["TfPwaV.Props.C12"]
-PROP_MODULES = ["TfPwaV.Props.C12"]
+LEAN_TARGETS = ["TfPwaV.Props.C12", "TfPwaV.Props.C12b", "TfPwaV.Gen.SU2F"]
+PROP_MODULES = ["TfPwaV.Props.C12", "TfPwaV.Props.C12b"]
 ALL_MODULES = ["TfPwaV.Model.Wigner", "TfPwaV.Proofs.Wigner", "TfPwaV.Proofs.WignerU7", "TfPwaV.Proofs.WignerU8",
-               "TfPwaV.Props.C12"]
+               "TfPwaV.Props.C12", "TfPwaV.Proofs.SU2", "TfPwaV.Props.C12b"]
 ASSUMPTIONS = [
     "float table entries are compared with the exact model value sign*sqrt(q) at relative 1e-13 (a wrong factorial, sign or index changes an entry by >= 1e-2 relative)",
     "sympy's CG(...).doit().evalf() is the run-time path of cg_coef; it is compared with the exact Racah value, sympy itself is not verified",
-    "D(R1)D(R2)=D(R1R2) and the Euler-angle round trip of SU2M are validated numerically on the implementation (search), not proved in Lean in this round",
+    "D(R1)D(R2)=D(R1R2) is validated numerically on the implementation (search), not proved in Lean; the Euler-angle round trip IS proved for every element of SU(2) (euler_roundtrip) on the real-pair model of SU2M, which is compared with the real class on every run",
+    "that a rotation-boost-rotation product of the kinematics is unitary (a pure Wigner rotation) is a kinematic fact outside this model; euler_roundtrip takes membership in SU(2) as its hypothesis",
 ]
 
 
@@ -64,7 +65,81 @@ def racah(j1, m1, j2, m2, J, M):
     return (1 if s > 0 else -1 if s < 0 else 0), pref * s * s
 
 
+def correspond_su2(ctx, res):
+    """templates/SU2.lean.in (Float instance) vs tf_pwa.angle.SU2M on seeded angles / products."""
+    import tensorflow as tf
+    from tf_pwa.angle import SU2M
+    rng = np.random.Generator(np.random.Philox(ctx.seed + 1212))
+    n = 400 if ctx.quick else 8000
+    edge = [0.0, math.pi, -math.pi, math.pi / 2, 1e-9, 2 * math.pi, -1e-9]
+    ang = np.concatenate([np.array(edge), rng.uniform(-2 * math.pi, 2 * math.pi, n - len(edge))])
+    ang2 = rng.permutation(ang)
+    ang3 = rng.uniform(0, math.pi, n)
+    ang3[:3] = [0.0, math.pi, 1e-8]
+    om = rng.uniform(-2.0, 2.0, n)
+
+    def flat(m):
+        x = m["x"]
+        a = np.stack([np.asarray(x[i][j]) for i in range(2) for j in range(2)], -1)  # (n,4) complex
+        return np.stack([a.real, a.imag], -1).reshape(len(a), 8)
+    t = lambda v: tf.constant(v)
+    Rz, Ry, Bz = SU2M.Rotation_z(t(ang)), SU2M.Rotation_y(t(ang3)), SU2M.Boost_z(t(om))
+    U = SU2M.Rotation_z(t(ang2)) * SU2M.Rotation_y(t(ang3)) * SU2M.Rotation_z(t(ang))
+    W = Bz * U  # SL(2,C) element
+    e = SU2M.get_euler_angle(U)
+    impl = {
+        "rotz": flat(Rz), "roty": flat(Ry), "boostz": flat(Bz), "mul": flat(W), "inv": flat(W.inv()),
+        "euler": np.stack([e["alpha"].numpy(), e["beta"].numpy(), e["gamma"].numpy()], -1),
+    }
+    fU, fB = flat(U), flat(Bz)
+    fW = flat(W)
+    lines, order = [], []
+    for i in range(n):
+        lines.append("C12s rotz " + C.f2h(ang[i])); order.append(("rotz", i))
+        lines.append("C12s roty " + C.f2h(ang3[i])); order.append(("roty", i))
+        lines.append("C12s boostz " + C.f2h(om[i])); order.append(("boostz", i))
+        lines.append("C12s mul " + " ".join(C.f2h(x) for x in list(fB[i]) + list(fU[i]))); order.append(("mul", i))
+        lines.append("C12s inv " + " ".join(C.f2h(x) for x in fW[i])); order.append(("inv", i))
+        lines.append("C12s euler " + " ".join(C.f2h(x) for x in fU[i])); order.append(("euler", i))
+    out = ctx.model.query(lines)
+    bad, worst = [], 0.0
+    for (op, i), line in zip(order, out):
+        if line == "bad-op":
+            res.broke("model driver bad-op (SU2)", lines[0])
+            return
+        mv = np.array([C.h2f(x) for x in line.split()])
+        iv = impl[op][i]
+        if op == "euler":
+            # beta = acos(.) is ill-conditioned at 0 and pi (forward error ~ sqrt(ulp)); alpha/gamma are arbitrary there
+            # (angle of a rounding-level number): compare the rebuilt matrices instead when sin(beta) is tiny
+            if abs(math.sin(iv[1])) < 1e-6:
+                continue
+            d = np.abs(mv - iv)
+            d[0] = min(d[0], abs(d[0] - 2 * math.pi), abs(d[0] - 4 * math.pi))
+            d[2] = min(d[2], abs(d[2] - 2 * math.pi), abs(d[2] - 4 * math.pi))
+            err = float(d.max()) * abs(math.sin(iv[1]))
+            tol = 1e-9
+        else:
+            err = float(np.max(np.abs(mv - iv))) / (1.0 + float(np.max(np.abs(iv))))
+            tol = 1e-13
+        worst = max(worst, err)
+        if not err < tol:
+            bad.append({"op": lines[len(bad)] if False else op, "i": int(i), "impl": list(map(float, iv)), "model": list(map(float, mv)), "err": err})
+    res.coverage["su2_ops_compared"] = len(lines)
+    res.coverage["su2_worst_err"] = worst
+    res.samples.append({"op": lines[3], "model": out[3]})
+    if bad:
+        res.broke("correspondence SU2F vs tf_pwa.angle.SU2M", {"n": len(bad), "first": bad[:3]})
+
+
 def correspond(ctx, res):
+    correspond_tables(ctx, res)
+    n0 = res.coverage.get("traces_validated_against_impl", 0)
+    correspond_su2(ctx, res)
+    res.coverage["traces_validated_against_impl"] = n0 + res.coverage.get("su2_ops_compared", 0)
+
+
+def correspond_tables(ctx, res):
     import tensorflow as tf
     from tf_pwa import cg as cgmod
     from tf_pwa import dfun
@@ -284,12 +359,12 @@ def search(ctx, res):
 
 
 def replay(ctx, payload):
-    print(payload)
-    return 0
+    import sys
+    return C.rerun_search_replay(sys.modules[__name__], ctx, payload)
 
 
 MANIFEST = {
-    "text": "Lean theorems: for every spin 2j<=8, all m,m' and ALL real beta (incl. 0 and pi) the small-d matrix built from the modelled weights is orthogonal (d_unitary), via a kernel-checked homogeneous polynomial identity valid for all real s,c (z_poly_unitary) lifted to the reals; Clebsch-Gordan coefficients by Racah's closed form with kernel-checked exact orthonormality over the spin grid. The model's weights/CG values are compared entry by entry with small_d_weight, small_d_matrix, D_matrix_conj, cg_coef (sympy path) and the bundled cg_table on every run.",
-    "note": "Model = TfPwaV.Wigner (exact Rat/Int). Tie = line-protocol comparison of every table entry and of matrix elements on edge+random angles. D(R1)D(R2)=D(R1R2), SU(2) Euler round trip and rotation-boost-rotation products are validated on the implementation (search), not proved. Trusted: Lean kernel, standard axioms, sympy CG evaluation, libm.",
+    "text": "Lean theorems: for every spin 2j<=8, all m,m' and ALL real beta (incl. 0 and pi) the small-d matrix built from the modelled weights is orthogonal (d_unitary), via a kernel-checked homogeneous polynomial identity valid for all real s,c (z_poly_unitary) lifted to the reals; Clebsch-Gordan coefficients by Racah's closed form with kernel-checked exact orthonormality over the spin grid; SU2M algebra (associativity, det multiplicative, inv is the two-sided inverse for det 1, Rz/Ry/Bz have det 1) and the Euler-angle round trip Rz(gamma)Ry(beta)Rz(alpha) = U for EVERY U in SU(2) incl. beta = 0, pi (euler_roundtrip). The model's weights/CG values are compared entry by entry with small_d_weight, small_d_matrix, D_matrix_conj, cg_coef (sympy path) and the bundled cg_table on every run.",
+    "note": "Model = TfPwaV.Wigner (exact Rat/Int). Tie = line-protocol comparison of every table entry and of matrix elements on edge+random angles. templates/SU2.lean.in (real-pair transcription of SU2M) compared op by op with the real class. D(R1)D(R2)=D(R1R2) and unitarity of rotation-boost-rotation products are validated on the implementation (search), not proved. Trusted: Lean kernel, standard axioms, sympy CG evaluation, libm.",
     "technique": "Lean 4 proof (kernel-evaluated exact polynomial/rational identities lifted to the reals) + exhaustive table correspondence with the implementation",
 }
